@@ -483,7 +483,15 @@ def roster_family(rng):
              'recognize': ['all', ['attr', 'own_id', None],
                            ['attr', 'main', None]],
              'savorize': sav, 'sweeten': swe}
-    return {'classes': [item, owner], 'doc_type': ['list', ['cls', 'Own']],
+    # a registered subclass that defines no hooks of its own: the base's
+    # sweetener and savorizer run for its objects, once
+    kid = {'name': 'Own2', 'kind': 'plain', 'bases': ['Own'],
+           'params': [dict(q) for q in owner['params']] + [
+               {'name': 'own2_x', 'type': 'int', 'default': 0}],
+           'recognize': ['all', ['attr', 'own_id', None],
+                         ['attr', 'main', None], ['attr', 'own2_x', None]]}
+    return {'classes': [item, owner, kid],
+            'doc_type': ['list', ['cls', 'Own']],
             'profile': 'roster-family'}, mode
 
 
@@ -524,11 +532,14 @@ def run_roster_family(ctx, rng):
         c = items()
         conts.append(c)
         return c
+    Own2 = m.classes['Own2']
     owners = [Own(own_id=i, main=cont(), spare=cont())
+              if rng.random() < 0.6 else
+              Own2(own_id=i, main=cont(), spare=cont(), own2_x=i + 1)
               for i in range(rng.randint(1, 3))]
     ctx.count('roster_family_values')
     run_value(ctx, spec, spec['doc_type'], owners)
-    run_value(ctx, spec, ['cls', 'Own'], owners[0])
+    run_value(ctx, spec, ['cls', type(owners[0]).__name__], owners[0])
 
 
 def shared_plain(rng):
